@@ -37,6 +37,9 @@
    Hypothesis of the end result: [wf_session_gen fresh specl quit acts] - every screen id used by the
    session is one of its screens (out of range, upd_scr is a no-op and the model's counters freeze), and, when
    [fresh], the session has no SHandlerAsk (needed for chk_once only: [no_handler_objects], [wf_session_fresh]).
+   Both range over ALL command lists of a screen, those of a setup() that runs commands ([sc_setup_cmds]) included:
+   no hypothesis on setup() is needed here ([IT_call_setup]: T_SETUP_BEGIN is a plain event for these acceptors - it
+   changes only sw_pframes, which [absw] forgets - and the commands are in the situation of those of refresh()).
    The arguments clause of chk_C06 needs no hypothesis: a request's handler carries its arguments ([ih_args],
    invariant [c_cb_req]: the monitor's record of the request = (owner, ih_args)), put in place at delivery (fix of F15). *)
 From SL Require Import Tac.
@@ -622,7 +625,7 @@ Proof.
     destruct (alookup (nth0 a 0) (sw_req w)) as [[scr args]|]; reflexivity. }
   destruct (tag =? T_INPUT)%nat eqn:E12; [reflexivity|].
   destruct (tag =? T_ACTION)%nat eqn:E13; [reflexivity|].
-  reflexivity.
+  destruct (tag =? T_SETUP_BEGIN)%nat eqn:E14; reflexivity.
 Qed.
 
 Lemma abs_step w e : absw (sworld_step w e) = mstep (absw w) e.
@@ -1086,7 +1089,7 @@ Fixpoint scmd_wf (N : nat) (fresh : bool) (c : scmd) : bool :=
   end.
 Definition cmds_wf N fresh (l : list scmd) : bool := forallb (scmd_wf N fresh) l.
 Definition spec_wf N fresh (sp : screen_spec) : bool :=
-  cmds_wf N fresh (sc_refresh sp) && cmds_wf N fresh (sc_show sp) && cmds_wf N fresh (sc_closed sp) &&
+  cmds_wf N fresh (sc_setup_cmds sp) && cmds_wf N fresh (sc_refresh sp) && cmds_wf N fresh (sc_show sp) && cmds_wf N fresh (sc_closed sp) &&
   forallb (fun x => cmds_wf N fresh (fst (snd x))) (sc_input sp) && cmds_wf N fresh (fst (sc_input_default sp)) &&
   forallb (cmds_wf N fresh) (sc_custom sp).
 Definition quit_wf N (quit : option nat) : bool :=
@@ -1106,7 +1109,7 @@ Fixpoint scmd_noask (c : scmd) : bool :=
   | _ => true
   end.
 Definition spec_noask (sp : screen_spec) : bool :=
-  forallb scmd_noask (sc_refresh sp) && forallb scmd_noask (sc_show sp) && forallb scmd_noask (sc_closed sp) &&
+  forallb scmd_noask (sc_setup_cmds sp) && forallb scmd_noask (sc_refresh sp) && forallb scmd_noask (sc_show sp) && forallb scmd_noask (sc_closed sp) &&
   forallb (fun x => forallb scmd_noask (fst (snd x))) (sc_input sp) && forallb scmd_noask (fst (sc_input_default sp)) &&
   forallb (forallb scmd_noask) (sc_custom sp).
 Definition no_handler_objects (specl : list screen_spec) (acts : list saction) : bool :=
@@ -1622,7 +1625,7 @@ Section Scr.
 
   (* events that only change "previous event" (and end a pending quit-dialog tracking) *)
   Definition plain_tag (t : nat) : bool :=
-    (t =? T_SETUP)%nat || (t =? T_REFRESH)%nat || (t =? T_CLOSED)%nat || (t =? T_MARK)%nat || (t =? T_ASK)%nat || (t =? T_OP)%nat || (t =? T_CUSTOM)%nat.
+    (t =? T_SETUP)%nat || (t =? T_SETUP_BEGIN)%nat || (t =? T_REFRESH)%nat || (t =? T_CLOSED)%nat || (t =? T_MARK)%nat || (t =? T_ASK)%nat || (t =? T_OP)%nat || (t =? T_CUSTOM)%nat.
   Lemma IT_ev_plain tag a : plain_tag tag = true -> IT (ev tag a).
   Proof.
     intros P n Q s HS HI HQ. open_inv HI. unfold plain_tag in P.
@@ -2119,11 +2122,13 @@ Section Scr.
   Lemma wf_parts scr : cmds_wf N fresh (sc_refresh (specs scr)) = true /\ cmds_wf N fresh (sc_show (specs scr)) = true /\
     cmds_wf N fresh (sc_closed (specs scr)) = true /\
     (forall x, In x (sc_input (specs scr)) -> cmds_wf N fresh (fst (snd x)) = true) /\
-    cmds_wf N fresh (fst (sc_input_default (specs scr))) = true.
+    cmds_wf N fresh (fst (sc_input_default (specs scr))) = true /\
+    cmds_wf N fresh (sc_setup_cmds (specs scr)) = true.
   Proof.
     pose proof (Hwf scr) as H. unfold spec_wf in H. apply andb_true_iff in H. destruct H as [H _].
     apply andb_true_iff in H. destruct H as [H H5]. apply andb_true_iff in H. destruct H as [H H4].
     apply andb_true_iff in H. destruct H as [H H3]. apply andb_true_iff in H. destruct H as [H1 H2].
+    apply andb_true_iff in H1. destruct H1 as [H0 H1].
     repeat split; auto. intros x I. rewrite forallb_forall in H4. auto.
   Qed.
 
@@ -2201,13 +2206,31 @@ Section Scr.
     apply IT_run_cmds. apply wf_parts.
   Qed.
 
-  Lemma IT_call_setup d : IT (call_setup specs d).
+  Lemma IT_call_setup_plain d : IT (call_setup_plain specs d).
   Proof.
-    unfold call_setup. apply IT_rd. intros u0.
+    unfold call_setup_plain. apply IT_rd. intros u0.
     apply IT_seq; [apply IT_wr_scr; reflexivity|]. apply IT_seq; [apply IT_ev_plain; reflexivity|].
     apply IT_seq; [|apply IT_wr_rb].
     destruct (nth_last _ _); [|apply IT_ret].
     apply IT_seq; [apply IT_wr_scr; reflexivity|apply IT_reg_source].
+  Qed.
+
+  (* a setup() with commands of its own: the commands are in the same situation as those of refresh() *)
+  Lemma IT_call_setup_cmds d cmds : cmds_wf N fresh cmds = true -> IT (call_setup_cmds specs d cmds).
+  Proof.
+    intros WF. unfold call_setup_cmds. apply IT_rd. intros u0.
+    apply IT_seq; [apply IT_wr_scr; reflexivity|]. apply IT_seq; [apply IT_ev_plain; reflexivity|].
+    apply IT_seq; [apply IT_run_cmds; exact WF|].
+    apply IT_seq; [apply IT_ev_plain; reflexivity|].
+    apply IT_seq; [|apply IT_wr_rb].
+    destruct (nth_last _ _); [|apply IT_ret].
+    apply IT_seq; [apply IT_wr_scr; reflexivity|apply IT_reg_source].
+  Qed.
+
+  Lemma IT_call_setup d : IT (call_setup specs d).
+  Proof.
+    unfold call_setup. pose proof (proj2 (proj2 (proj2 (proj2 (proj2 (wf_parts (sd_scr d))))))) as WF.
+    destruct (sc_setup_cmds (specs (sd_scr d))) as [|c l]; [apply IT_call_setup_plain|apply IT_call_setup_cmds; exact WF].
   Qed.
 
   Lemma IT_ask_pages scr k : IT (ask_pages specs scr k).
@@ -2612,7 +2635,7 @@ Section Scr.
                         end)) = true).
     { destruct (assoc_str line (sc_input (specs scr))) as [[c r]|] eqn:AS.
       - destruct (assoc_str_in _ _ _ AS) as [k' I]. apply (proj1 (proj2 (proj2 (proj2 (wf_parts scr)))) _ I).
-      - apply wf_parts. }
+      - apply (proj1 (proj2 (proj2 (proj2 (proj2 (wf_parts scr)))))). }
     destruct (match assoc_str line (sc_input (specs scr)) with
               | Some (c, r) => (c, r)
               | None => (fst (sc_input_default (specs scr)),
